@@ -23,9 +23,28 @@ if HERE not in sys.path:
 
 # One stable hash seed for the main interpreter and the workers forked from it; determinism under
 # another hash seed is checked separately in a fresh interpreter.
-if os.environ.get('PYTHONHASHSEED') is None and os.environ.get('VERIF_NO_REEXEC') is None:
-    os.environ['PYTHONHASHSEED'] = '0'
+def _fixed_address_space():
+    """Switch address-space randomisation off for this process image and everything it starts (Linux personality
+    flag ADDR_NO_RANDOMIZE, inherited across fork/exec).  Object addresses are one more source of nondeterminism the
+    properties can depend on (state keyed by id() of a dead node): with a fixed layout the same allocation history gives
+    the same addresses, so a fresh-interpreter replay repeats itself exactly.  Best effort: silently skipped where the
+    call is not available."""
+    try:
+        import ctypes
+        libc = ctypes.CDLL(None, use_errno=True)
+        cur = libc.personality(0xffffffff)
+        if cur != -1 and not cur & 0x0040000:
+            libc.personality(cur | 0x0040000)
+    except Exception:  # noqa: BLE001
+        pass
+
+
+if (os.environ.get('PYTHONHASHSEED') is None or os.environ.get('VERIF_FIXED_ADDRESSES') is None) \
+        and os.environ.get('VERIF_NO_REEXEC') is None:
+    os.environ.setdefault('PYTHONHASHSEED', '0')
     os.environ['VERIF_NO_REEXEC'] = '1'
+    os.environ['VERIF_FIXED_ADDRESSES'] = '1'
+    _fixed_address_space()
     os.execv(sys.executable, [sys.executable] + sys.argv)
 
 os.environ.pop('COVERAGE_PROCESS_START', None)
